@@ -299,6 +299,68 @@ def extra_props(op, name):
         out += ['C06']      # a size argument >= 2^20 corrupted something
     return out
 
+def attributed(pid, cid, step, name, props, ops_c, isteps):
+    """the properties a monitor failure speaks for (monitor tags + operation- and state-dependent ones)"""
+    op_c = ops_c[step] if step < len(ops_c) else None
+    props = list(props) + extra_props(op_c, name)
+    # a wrong value / unexpected panic on a step whose target was a borrowed static also speaks for C10
+    if op_c is not None and name in ('text_mismatch', 'panic_other', 'utf8_invalid', 'ret_mismatch', 'out_of_bounds', 'process_abort'):
+        tg = op_target(op_c)
+        prev = isteps.get((cid, step - 1))
+        if tg is not None and prev is not None:
+            ps = parse_slots(prev[2])
+            if tg < len(ps) and ps[tg] is not None and ps[tg]['kind'] == 'S':
+                props.append('C10')
+    if pid == 'C20' and any(x in props for x in ('C01', 'C02', 'C03')):
+        props.append('C20')
+    return props
+
+def still_fails(root, pid, text, name):
+    rn = os.path.join(root, '.cache', 'harness-target', 'release', 'runner')
+    tmp = os.path.join(root, '.cache', 'tmp', 'shrink_%d.cases' % os.getpid())
+    open(tmp, 'w').write(text)
+    rc, out = sh([rn, tmp], 120)
+    os.remove(tmp)
+    isteps, _, mons = parse_trace(out)
+    cases, order = split_cases(text)
+    for (cid, step, n, props, detail) in mons:
+        if n == name and pid in attributed(pid, cid, step, n, props, case_ops(cases.get(cid, '')), isteps):
+            return True
+    return False
+
+def shrink_case(root, pid, case_text, name, budget=150):
+    """minimise a failing case: cut the tail, then delete in-place ops / neutralise constructors one at a time,
+    keeping only changes after which the same monitor still fires for this property"""
+    lines = [l for l in case_text.splitlines() if l.strip()]
+    head = [l for l in lines if not l.strip().startswith('op ') and l.strip() != 'end']
+    ops = [l for l in lines if l.strip().startswith('op ')]
+    def build(o): return '\n'.join(head + o + ['end']) + '\n'
+    if not still_fails(root, pid, build(ops), name):
+        return case_text
+    trials = [0]
+    def ok(o):
+        trials[0] += 1
+        return trials[0] <= budget and still_fails(root, pid, build(o), name)
+    lo, hi = 1, len(ops)                       # smallest failing prefix
+    while lo < hi:
+        mid = (lo + hi) // 2
+        if ok(ops[:mid]): hi = mid
+        else: lo = mid + 1
+    ops = ops[:hi]
+    i = len(ops) - 1
+    while i >= 0 and trials[0] < budget:
+        t = ops[i].split()
+        ctor = t[2] in ('new', 'from_str', 'from_static', 'with_capacity', 'from_char', 'from_bool', 'from_int', 'clone',
+                        'collect_chars', 'collect_strs', 'display')
+        cand = ops[:i] + (['op plain new'] if ctor else []) + ops[i + 1:]
+        if cand != ops and ok(cand):
+            ops = cand
+        i -= 1
+    # drop a trailing run of neutral constructors
+    while len(ops) > 1 and ops[-1] == 'op plain new' and ok(ops[:-1]):
+        ops = ops[:-1]
+    return '# minimised from %d to %d operations by tools/lsv.py shrink_case\n' % (len([l for l in lines if l.strip().startswith('op ')]), len(ops)) + build(ops)
+
 # ------------------------------------------------------------------------------------------------ property table
 # profile mix, number of generated cases (quick, thorough), the monitors that speak for the property
 PROPS = {
@@ -434,24 +496,18 @@ def explore(root, pid, res, case_text, label, stats):
     for (cid, step, name, props, detail) in mons:
         if cid in cases and cid not in opcache:
             opcache[cid] = case_ops(cases[cid])
-        ops_c = opcache.get(cid, [])
-        op_c = ops_c[step] if step < len(ops_c) else None
-        props = list(props) + extra_props(op_c, name)
-        # a wrong value / unexpected panic on a step whose target was a borrowed static also speaks for C10
-        if op_c is not None and name in ('text_mismatch', 'panic_other', 'utf8_invalid', 'ret_mismatch', 'out_of_bounds', 'process_abort'):
-            tg = op_target(op_c)
-            prev = isteps.get((cid, step - 1))
-            if tg is not None and prev is not None:
-                ps = parse_slots(prev[2])
-                if tg < len(ps) and ps[tg] is not None and ps[tg]['kind'] == 'S':
-                    props.append('C10')
-        if pid == 'C20' and any(x in props for x in ('C01', 'C02', 'C03')):
-            props.append('C20')
+        props = attributed(pid, cid, step, name, props, opcache.get(cid, []), isteps)
         if pid in props and cid not in seen:
             seen.add(cid)
             stats['monitor_failures'] += 1
             if len(res.violations) < 5:
-                rp = write_replay(root, pid, '%s_%s' % (label, cid), cases.get(cid, ''))
+                ctext = cases.get(cid, '')
+                try:
+                    if len(res.violations) < 2 and ctext:
+                        ctext = shrink_case(root, pid, ctext, name)
+                except Exception:
+                    pass
+                rp = write_replay(root, pid, '%s_%s' % (label, cid), ctext)
                 res.violations.append(('monitor %s at case %s step %d: %s' % (name, cid, step, detail[:200]), rp, True, name))
     # correspondence on the property's projection
     if mtxt is None:
@@ -548,6 +604,15 @@ def decide(root, pid, tier, seed, replay=None):
                     done += c; start += c
                     if len(res.violations) >= 5:
                         break
+    # ---- extraction cross-check: the OCaml run of the extracted model against vm_compute inside Coq
+    if pid in ('C01', 'C03', 'C05', 'C09', 'C13') and not replay and st['model']['ok'] and st['coq_theories']['ok']:
+        import coqcases
+        ctext = corpus_text(root) + gen_text(root, seed * 1000 + 991, 30 if tier == 'quick' else 300, 'mix', 5 * 10 ** 6)
+        mtxt, _, _ = run_cases(root, ctext, 600)
+        if mtxt is not None:
+            nchk, nbad, detail = coqcases.cross_check(root, ctext, mtxt, 40 if tier == 'quick' else 300)
+            res.oblige('extraction: OCaml model == vm_compute inside Coq on %d cases' % nchk, nbad == 0 and nchk > 0, detail)
+            res.cov['extraction_cross_check_cases'] = nchk
     # ---- disagreement without a monitor failure: directed search, then report
     failed_obl = [o for o in res.obligations if not o[1]]
     if (stats['disagreements'] or failed_obl) and not res.violations and not replay and pid in PROPS:
